@@ -361,6 +361,29 @@ def hostile(acc, ctx, spec):
                           "two encryptions of (k, m) are equal when the host program re-seeds (or restores the state "
                           "of) the global random generator in between", case)
             continue
+        # ---- (b2) the same (key, message) encrypted in other threads (one after the other), and after idle time
+        if rnd % 10 == 0:
+            import threading
+            from vlib import instrument
+            acc.count("hostile.other_threads_and_idle_time")
+            outs = [ske.Encrypt(key, m) for _ in range(3)]
+
+            def in_thread():
+                outs.extend(ske.Encrypt(key, m) for _ in range(3))
+            for _ in range(3):
+                t = threading.Thread(target=in_thread)
+                t.start()
+                t.join(20)
+            with instrument.ClockOffset() as clk:
+                for pause in (11, 61, 3601, 86401):
+                    clk.advance(pause)
+                    outs.extend(ske.Encrypt(key, m) for _ in range(3))
+            if len(set(outs)) != len(outs):
+                acc.violation("aes:not-randomized:threads-or-idle-time",
+                              f"{len(outs) - len(set(outs))} of {len(outs)} encryptions of one (key, message) coincide when "
+                              f"some are made in other threads (one after the other) and some after pauses of 11 s to "
+                              f"a day (process clocks pushed forward)", case)
+                continue
         # ---- (c) a refused call, then normal calls on the same object
         acc.count("hostile.after_refusal")
         c0 = ske.Encrypt(key, m)
